@@ -49,6 +49,21 @@ func runC03(w *World, r *Report) {
 	c03Atomic(w, r, ef)
 	c03UninstallAccepts(w, r)
 	c03NestedWait(w, r)
+	// the rollback (also the one of a failed atomic upgrade) diffs the manifests of the two records it was
+	// handed: the revision being left and the target — never another stored revision
+	r.Rule("C03/ROLLBACK-BASE", "performRollback builds its two resource lists only from the manifests of the records it is given (the current revision and the target), never from another stored revision", 2)
+	if pr := w.Fn("pkg/action", "Rollback.performRollback"); pr != nil {
+		r.Remap = func(rule string) string {
+			if rule == "C07/DIFF-BASE" {
+				return "C03/ROLLBACK-BASE"
+			}
+			return rule
+		}
+		c07DiffBase(w, r, pr, FullGraph(pr))
+		r.Remap = nil
+	} else {
+		r.Unk("C03/ROLLBACK-BASE", "anchor", "-", "Rollback.performRollback not found")
+	}
 	r.Rule("C03/ERROR-KEPT", "in pkg/action and pkg/kube an error carried across loop iterations is never overwritten by a value that may be nil", 0)
 	if errOverwritten(w, r, "C03/ERROR-KEPT", []string{"pkg/action", "pkg/kube"}) == 0 {
 		r.OKTrivial("C03/ERROR-KEPT", "none", "-", "no error is carried across loop iterations")
